@@ -697,6 +697,50 @@ fn canon(text: &str) -> String {
     level(&toks, &mut i)
 }
 
+/// labelled multi-definition faults: each is a set of extra definitions (chunks) appended to a valid project
+const FAULTS: &[(&str, &[&str])] = &[
+    ("directive-recursion-with-outside-entry", &[
+        "directive @c17entry(x: Int @c17ping) on FIELD_DEFINITION\n",
+        "directive @c17ping(a: Int @c17pong) on ARGUMENT_DEFINITION\n",
+        "directive @c17pong(b: Int @c17ping) on ARGUMENT_DEFINITION\n",
+        "type C17UsesEntry {\n  f: Int @c17entry(x: 1)\n}\n"]),
+    ("directive-self-recursion-through-input-type", &[
+        "directive @c17self(a: C17SelfIn) on INPUT_FIELD_DEFINITION\n",
+        "input C17SelfIn {\n  v: Int @c17self\n}\n",
+        "directive @c17outer(q: C17SelfIn) on FIELD_DEFINITION\n"]),
+    ("interface-implements-cycle", &[
+        "interface C17CycA implements C17CycB {\n  id: ID\n}\n",
+        "interface C17CycB implements C17CycA {\n  id: ID\n}\n",
+        "type C17CycObj implements C17CycA & C17CycB {\n  id: ID\n}\n"]),
+    ("duplicate-type-name", &[
+        "type C17Dup {\n  a: Int\n}\n",
+        "type C17Dup {\n  b: Int\n}\n",
+        "extend type C17Dup {\n  c: Int\n}\n"]),
+    ("missing-transitive-interface", &[
+        "interface C17TA {\n  a: Int\n}\n",
+        "interface C17TB implements C17TA {\n  a: Int\n}\n",
+        "type C17TObj implements C17TB {\n  a: Int\n}\n"]),
+    ("unknown-type-referenced", &[
+        "type C17Ref {\n  x: C17Missing\n}\n",
+        "extend type C17Ref {\n  y: [C17AlsoMissing!]\n}\n",
+        "union C17U = C17Ref | C17Nowhere\n"]),
+    ("extension-without-original", &[
+        "extend type C17Ghost {\n  a: Int\n}\n",
+        "extend enum C17GhostE {\n  V\n}\n"]),
+    ("interface-field-missing-in-object", &[
+        "interface C17I {\n  must: Int\n  also: String\n}\n",
+        "type C17Impl implements C17I {\n  must: Int\n}\n",
+        "extend interface C17I {\n  later: ID\n}\n"]),
+];
+
+/// the kind of a diagnostic = the leading identifier of its Debug text, e.g. "RecursingDirective"
+fn diag_kind(d: &str) -> String { d.trim_start().chars().take_while(|c| c.is_alphanumeric() || *c == '_').collect() }
+fn kind_multiset(o: &Outcome) -> Vec<(String, u64)> {
+    let mut m: BTreeMap<String, u64> = BTreeMap::new();
+    for d in &o.diagnostics { *m.entry(diag_kind(d)).or_insert(0) += 1; }
+    m.into_iter().collect()
+}
+
 // ------------------------------------------------------------------------------------------------
 // CLI runs
 
@@ -963,6 +1007,41 @@ fn main() {
         perm_done += 1;
     }
     dist.insert("permuted_projects".into(), perm_done as u64);
+
+    // ---- 4b. permuted INVALID projects: verdict(pi(P)) = verdict(P) must hold for failing projects too
+    let n_fault_proj = if thorough { 40 } else { 5 };
+    let k_fault_perm = if thorough { 12 } else { 6 };
+    let mut fault_cases = 0u64;
+    let mut fault_verdicts: BTreeMap<String, u64> = BTreeMap::new();
+    for (fi, (label, extra)) in FAULTS.iter().enumerate() {
+        for j in 0..n_fault_proj.min(projects.len()) {
+            let base_p = &projects[(fi * 7 + j) % projects.len()];
+            let mut p = base_p.clone();
+            for c in extra.iter() { p.chunks.push(Chunk { text: c.to_string() }); }
+            let p = p.permuted(&mut rng);
+            let (f1, o1, y1) = (p.files(), p.ops.clone(), p.config_yaml());
+            let (fa, oa, ya) = (f1.clone(), o1.clone(), y1.clone());
+            let base = catch(move || run_inproc(&fa, &oa, &ya)).unwrap_or_else(|m| Outcome { verdict: format!("panic: {m}"), diagnostics: vec![], files: BTreeMap::new() });
+            *fault_verdicts.entry(format!("{label}:{}", base.verdict.split(':').next().unwrap())).or_insert(0) += 1;
+            for _ in 0..k_fault_perm {
+                let q = p.permuted(&mut rng);
+                let (f2, o2, y2) = (q.files(), q.ops.clone(), q.config_yaml());
+                let (fb, ob, yb) = (f2.clone(), o2.clone(), y2.clone());
+                let other = catch(move || run_inproc(&fb, &ob, &yb)).unwrap_or_else(|m| Outcome { verdict: format!("panic: {m}"), diagnostics: vec![], files: BTreeMap::new() });
+                let (k1, k2) = (kind_multiset(&base), kind_multiset(&other));
+                let cq = |k: &Vec<(String, u64)>| coq_list(k, |(a, b)| format!("({}, {})", coq_str(a), coq_n(*b)));
+                let t = format!("CPermV {} {} {} {}", coq_str(&base.verdict), coq_str(&other.verdict), cq(&k1), cq(&k2));
+                distinct.insert(fnv(&format!("{t}{}", f2.join(""))));
+                cases.push(t, json!({"kind":"perm-invalid","fault":label,"schema_files":f1,"permuted_schema_files":f2,"operations":o2,
+                    "config":y1,"permuted_config":y2,"verdict":base.verdict,"permuted_verdict":other.verdict,
+                    "diagnostic_kinds":k1,"permuted_diagnostic_kinds":k2,
+                    "diagnostics":base.diagnostics,"permuted_diagnostics":other.diagnostics}));
+                fault_cases += 1;
+            }
+        }
+    }
+    dist.insert("permuted_invalid_project_comparisons".into(), fault_cases);
+    for (k, v) in &fault_verdicts { dist.insert(format!("fault_verdict_{k}"), *v); }
 
     // ---- 5. the real CLI in fresh processes
     let mut cli_runs = 0u64;
